@@ -32,6 +32,8 @@ const QSETS: &[QuerySet] = &[
     QuerySet { id: "stmtb", lang: "stmtb", tags: include_str!("stmtb_tags.scm"), locals: "" },
     // a match that arrives after later names were flushed (corpus only)
     QuerySet { id: "stmto", lang: "stmt", tags: include_str!("stmto_tags.scm"), locals: "" },
+    // the same finding in a realistic shape: definition with a trailing docstring (corpus only)
+    QuerySet { id: "stmtl", lang: "stmt", tags: include_str!("stmtl_tags.scm"), locals: "" },
 ];
 
 fn strip_id(re: &str) -> usize {
